@@ -49,7 +49,7 @@ theorem degMod_turn (v : Rat) (h0 : 360 ≤ v) (h1 : v < 720) : degMod CQuirks.s
   have e := fmod_sub v 360 (by norm_num) h0 (by linarith)
   rw [e]
   have : ¬ (v - 360 < 0) := by linarith
-  simp [CQuirks.spec, this]
+  simp [CQuirks.spec, this, abs_of_nonneg' (v - 360) (by linarith)]
 
 /-- adding a full turn to a hue in range and normalising gives the hue back -/
 theorem degMod_add_360 (h : Rat) (h0 : 0 ≤ h) (h1 : h < 360) : degMod CQuirks.spec (h + 360) = h := by
